@@ -18,7 +18,7 @@ class AnalysisBroken(Exception):
 def _sha(paths):
     h = hashlib.sha256()
     for p in sorted(paths):
-        h.update(p.encode())
+        h.update(os.path.relpath(p, REPO).encode())
         try:
             with open(p, "rb") as f:
                 h.update(f.read())
@@ -41,7 +41,7 @@ DROP = {"-fext-numeric-literals", "-march=native", "-O3", "-O2", "-w", "-g"}
 
 def load(target="inovesa"):
     """-> (list of (source, flags)), build_dir"""
-    key = _sha(_cmake_inputs()) + "-" + hashlib.sha256(REPO.encode()).hexdigest()[:6]
+    key = _sha(_cmake_inputs())
     bdir = os.path.join(CACHE, "cmake-" + key)
     db = os.path.join(bdir, "compile_commands.json")
     if not os.path.exists(db):
@@ -59,11 +59,19 @@ def load(target="inovesa"):
         # the database mentions the temporary directory: rewrite
         txt = open(os.path.join(tmp, "compile_commands.json")).read().replace(tmp, bdir)
         open(os.path.join(tmp, "compile_commands.json"), "w").write(txt)
+        open(os.path.join(tmp, "REPO"), "w").write(os.path.realpath(REPO))
         try:
             os.rename(tmp, bdir)
         except OSError:
             shutil.rmtree(tmp, ignore_errors=True)   # lost a race: other process built it
-    entries = json.load(open(db))
+    # the database may have been configured for another checkout with identical cmake inputs
+    # (scratch copies used by the mutant self-test): rewrite its source root
+    made_for = open(os.path.join(bdir, "REPO")).read().strip()
+    txt = open(db).read()
+    here = os.path.realpath(REPO)
+    if made_for != here:
+        txt = txt.replace(made_for + "/", here + "/")
+    entries = json.loads(txt)
     units = {}
     for e in entries:
         cmd = e.get("command") or " ".join(e["arguments"])
